@@ -28,7 +28,8 @@ def rand_partitions(rng, n):
     return parts
 
 
-def gen_refine(rng):
+def gen_refine(rng, combo=None):
+    '''combo: (correlation, match, zero-shift kind) to force; None = random'''
     n = int(rng.integers(1, 7))
     fy, fx = int(rng.integers(44, 72)), int(rng.integers(44, 72))
     zero = np.array([fy / 2 + rng.uniform(-2, 2), fx / 2 + rng.uniform(-2, 2)])
@@ -36,7 +37,7 @@ def gen_refine(rng):
     ang = rng.uniform(-0.3, 0.3)
     a = la * np.array([np.cos(ang), np.sin(ang)])
     b = rng.uniform(11, 15) * np.array([-np.sin(ang), np.cos(ang)])
-    zk = str(rng.choice(['none', 'const', 'perframe', 'fractional']))
+    zk = str(rng.choice(['none', 'const', 'perframe', 'fractional'])) if combo is None else combo[2]
     if zk == 'none':
         shifts = np.zeros((n, 2))
         zs = None
@@ -58,7 +59,8 @@ def gen_refine(rng):
     layout = str(rng.choice(['mgrid', 'list']))
     idx = np.mgrid[-3:4, -3:4] if layout == 'mgrid' else np.array([(i, j) for i in range(-3, 4) for j in range(-3, 4)])[rng.permutation(49)[:30]]
     return dict(data=np.array(data, dtype=np.float32), zero=zero, a=a, b=b, shifts=shifts, zs=zs, zk=zk, radius=radius, search=search, indices=idx, layout=layout,
-                correlation=str(rng.choice(['fast', 'fullframe', 'sparse'])), match=str(rng.choice(['fast', 'affine'])),
+                correlation=str(rng.choice(['fast', 'fullframe', 'sparse'])) if combo is None else combo[0],
+                match=str(rng.choice(['fast', 'affine'])) if combo is None else combo[1],
                 tolerance=float(rng.choice([0.4, 1.0, 3.0])), parts=rand_partitions(rng, n))
 
 
@@ -268,8 +270,10 @@ def run(ctx):
     d = dispatch_failure()
     if d:
         ctx.violation('input', d, {'kind': 'input', 'call': 'run_refine dispatch', 'args': {}})
+    # every (correlation, match) combination with and without a zero shift first (sparse: only without), then random ones
+    combos = [(cr, mt, zk) for cr in ('fast', 'fullframe', 'sparse') for mt in ('fast', 'affine') for zk in (('none',) if cr == 'sparse' else ('none', 'perframe'))]
     for k in range(ctx.n(24, 300)):
-        c = gen_refine(rng)
+        c = gen_refine(rng, combos[k] if k < len(combos) else None)
         fail = refine_failure(c)
         ctx.count(len(c['data']), key=('refine', c['zero'].tolist(), c['parts'], c['zk'], c['correlation'], c['match']))
         for nm in ('correlation', 'match', 'zk', 'layout'):
